@@ -23,10 +23,24 @@ from typing import Iterator
 # data
 # ---------------------------------------------------------------------------
 
+# Keys whose text contains a backslash followed by an escape-like letter, next to the "decoy"
+# key that unescaping that text a second time would produce: a lookup that changes, changes
+# the output.
+BACKSLASH_KEYS: dict[str, Any] = {
+    "C:\\temp\\new": "exact-path", "C:\temp\new": "decoy-path",
+    "a\\tb": "exact-tab", "a\tb": "decoy-tab",
+    "x\\qy": "exact-q",
+    "k\\n": "b", "k\n": "x",
+    "u\\u0041": "exact-u", "uA": "decoy-u",
+    "q\\\\n": "exact-2bs", "q\\n": "decoy-2bs",
+}
+
 DATA_A: dict[str, Any] = {
-    "a": {"b c": {"d": [{"e": 1}, {"e": 2}]}, "b": [1, 2, 3], "x": "xx", "k": "b", "first": "F"},
+    "a": {"b c": {"d": [{"e": 1}, {"e": 2}]}, "b": [1, 2, 3], "x": "xx", "k": "b", "first": "F",
+          **BACKSLASH_KEYS},
+    "C:\\temp\\new": "exact-root", "C:\temp\new": "decoy-root",
     "a b": "AB",
-    "e": {"f": 0, "g": "b"},
+    "e": {"f": 0, "g": "b", **BACKSLASH_KEYS},
     "items": [{"x": 1, "t": "one", "f": True}, {"x": 2, "t": "two", "f": False}, {"x": 3, "t": "three"}],
     "s": "hello", "u": "World Wide", "n": 3, "m": 0, "t": True, "f": False, "z": None,
     "arr": [1, 2, 3, 4, 5, 6], "words": ["b", "a", "c", "a"], "é": "accent", "tpl": "p",
@@ -55,8 +69,9 @@ def random_data(rng: random.Random) -> dict[str, Any]:
         if rng.random() < 0.7:
             d[k] = rng.choice([True, False, None, 0, ""])
     d["n"] = rng.choice([0, 1, 2, 3, 4, None, "3"])
-    d["a"] = rng.choice([DATA_A["a"], DATA_B["a"], {"b": [3, 2, 1], "k": "b", "x": 1}, None, "str"])
-    d["e"] = rng.choice([DATA_A["e"], DATA_B["e"], {"f": 1, "g": "k"}, None])
+    d["a"] = rng.choice([DATA_A["a"], DATA_A["a"], DATA_B["a"], {"b": [3, 2, 1], "k": "b", "x": 1, **BACKSLASH_KEYS},
+                         None, "str"])
+    d["e"] = rng.choice([DATA_A["e"], DATA_B["e"], {"f": 1, "g": "k", **BACKSLASH_KEYS}, None])
     d["items"] = rng.choice([DATA_A["items"], [], [{"x": 2, "t": "b"}, {"x": 2, "t": "a", "f": 1}], None])
     if rng.random() < 0.5:
         d["a b"] = rng.choice(["ab", 1, None])
@@ -136,6 +151,23 @@ PRIMS: list[tuple[str, str, str]] = [
     (r"'\'${s}\''", "tstr-escaped-quotes", "any"), (r'''"\"${s}\"'"''', "tstr-escaped-quotes", "any"), (r"'a\n${n}\${x}'", "tstr-escapes", "any"),
     ("'${s | slice: 1, 2}'", "tstr-multi-arg-filter", "any"), ("'${nil}|${a[\"b c\"].d[0].e}'", "tstr-nil-path", "any"),
     ("'${ s if t else n }'", "tstr-ternary", "any"),
+    # template strings whose literal segments mix the quote kinds (one segment has only ', another
+    # only "), both outer quote styles, with backslashes and ${-lookalikes in the segments
+    (r'''"it's ${s} saying \"hi\""''', "tstr-mixed-quotes-dq", "any"),
+    (r"""'it\'s ${s} saying "hi"'""", "tstr-mixed-quotes-sq", "any"),
+    (r'''"'${s}\""''', "tstr-mixed-quotes-dq", "any"), (r"""'\'${s}"'""", "tstr-mixed-quotes-sq", "any"),
+    (r'''"a'b${n}c\"d${s}e"''', "tstr-mixed-quotes-dq", "any"), (r"""'a\'b${n}c"d${s}e'""", "tstr-mixed-quotes-sq", "any"),
+    (r'''"\"${n}' and '${s}\" ${t}'"''', "tstr-mixed-quotes-dq", "any"),
+    (r'''"it's \\ ${s} \"q\" \\n \${z} $ {z}"''', "tstr-mixed-quotes-backslash", "any"),
+    (r"""'x\'${n}\\"y"${s | upcase}\${z}\'\\\''""", "tstr-mixed-quotes-backslash", "any"),
+    (r'''"'${ "in'ner" }\"${ 'in"ner' }'"''', "tstr-mixed-quotes-nested", "any"),
+    (r'''"${s}'${n}\"${t}"''', "tstr-mixed-quotes-adjacent", "any"),
+    # quoted path segments whose unescaped text holds a backslash before an escape-like letter
+    (r"a['C:\\temp\\new']", "path-backslash-segment", "any"), (r'a["a\\tb"]', "path-backslash-segment", "any"),
+    (r"a['x\\qy']", "path-backslash-not-an-escape", "any"), (r"a[e['k\\n']]", "path-backslash-nested", "any"),
+    (r"['C:\\temp\\new']", "path-backslash-root", "any"), (r"a['u\\u0041']", "path-backslash-unicode", "any"),
+    (r"a['q\\\\n']", "path-double-backslash", "any"), (r"e['k\\n']", "path-backslash-segment", "any iter"),
+    (r"'C:\\temp\\new'", "str-backslash-escape-like", "any"), (r"a[ 'a\\tb' ].size", "path-backslash-segment", "any num"),
 ]
 
 _NOT_IN_LIQUID_LINE: set[str] = set()  # primitives containing a literal newline (none above)
@@ -692,7 +724,28 @@ class Gen:
         if self.chance(0.6):
             return self.pick(["s", "n", "u", "arr", "a.b", "a.x", "items[0].t", "'lit'", '"dq"', "3", "2.5",
                               "t", "f", "x", "v", "i", "w", "a.b[1]", "e.f", "words", "'a${n}'", "(1..3)"])
+        if self.chance(0.12):
+            return self.tstr()
         return self.prim()
+
+    def tstr(self) -> str:
+        """A template string whose literal segments mix quote kinds."""
+        self.feat("tstr-generated")
+        q = self.pick(["'", '"'])
+        other = '"' if q == "'" else "'"
+        lits = ["it" + "'" + "s", 'say "hi"', "'", '"', "a'b", 'c"d', "plain ", "\\\\", "\\n", "\\${z}", "$ {z}", "{ }",
+                "é", "%} }}"]
+        interps = ["${s}", "${n}", "${ t }", "${s | upcase}", "${a.b[0]}", "${s | slice: 0, 2}",
+                   "${ " + other + "in" + q + "ner" + other + " }", "${x}"]
+        parts = []
+        for k in range(self.rng.randint(2, 5)):
+            if k % 2 == 0:
+                parts.append(self.pick(lits).replace(q, "\\" + q))
+            else:
+                parts.append(self.pick(interps))
+        if not any(p.startswith("${") for p in parts):
+            parts.insert(1, "${s}")
+        return q + "".join(parts) + q
 
     def num(self) -> str:
         if self.chance(0.85):
